@@ -280,7 +280,7 @@ def report(mod, total, tier, seed):
             known.setdefault(f["id"], [f, 0])[1] += 1
     for fid, (f, n) in known.items():
         print(f"KNOWN-FINDING: property={pid} {f['id']}: {f['what']} ({n} recorded case(s) this run)")
-    rdir = os.path.join(VERIF, "replays", pid)
+    rdir = os.path.join(os.environ.get("MCX_REPLAY_DIR") or os.path.join(VERIF, "replays"), pid)
     written = []
     seen_clause = collections.Counter()
     for v in unmatched:
@@ -355,8 +355,9 @@ def write_evidence(mod, total, tier, seed, nviol, vacuous):
         "wall_s": round(total.wall, 2),
         "violations": int(nviol or 0),
     }
-    os.makedirs(os.path.join(VERIF, "evidence"), exist_ok=True)
-    path = os.path.join(VERIF, "evidence", f"{pid}.json")
+    evdir = os.environ.get("MCX_EVIDENCE_DIR") or os.path.join(VERIF, "evidence")
+    os.makedirs(evdir, exist_ok=True)
+    path = os.path.join(evdir, f"{pid}.json")
     tmp = path + ".tmp"
     with open(tmp, "w") as fp:
         fp.write(jdump(ev, indent=1))
